@@ -270,6 +270,18 @@ class Evaluator:
     def list_slice(self, lv, sl, st, node):
         cell = st.heap.lists[lv.ref]
         n = cell.length
+        if not isinstance(sl.step, VNone) and const_int(as_int(sl.step)) == -1 and isinstance(sl.start, VNone) and isinstance(sl.stop, VNone):
+            # x[::-1]: reversal
+            if cell.etype is None:
+                return st.heap.alloc_list(None, z3.IntVal(0), [])
+            res, rl = st.heap.fresh_list(cell.etype, 'rev')
+            rc = st.heap.lists[res.ref]
+            st.assume(rl == n)
+            k = z3.Int(fresh_name('k'))
+            st.assume(z3.ForAll([k], z3.Implies(z3.And(k >= 0, k < n), z3.And([r[k] == x[n - 1 - k] for r, x in zip(rc.leaves, cell.leaves)]))))
+            k2 = z3.Int(fresh_name('k'))
+            st.assume(z3.ForAll([k2], z3.Implies(z3.And(k2 >= 0, k2 < n), z3.And([r[n - 1 - k2] == x[k2] for r, x in zip(rc.leaves, cell.leaves)]))))
+            return VList(res.ref, nd=lv.nd, width=lv.width)
         if not (isinstance(sl.step, VNone) or const_int(as_int(sl.step)) == 1):
             raise Unsupported('list slice with step != 1')
 
@@ -298,7 +310,7 @@ class Evaluator:
         # small concrete-length slices get ground facts too (helps `i0, i1 = bounds[c:c+2]`)
         for j in range(0, 3):
             st.assume(z3.Implies(ln > j, z3.And([r[j] == x[a + j] for r, x in zip(rc.leaves, cell.leaves)]) if rc.leaves else z3.BoolVal(True)))
-        return res
+        return VList(res.ref, nd=lv.nd, width=lv.width)
 
     def range_to_list(self, r, st):
         """list(range(a, b, s)) for s > 0 (obligation) without multiplication by symbolic step (DESIGN 2.3)."""
@@ -482,6 +494,8 @@ class Evaluator:
         if isinstance(op, ast.Sub):
             return VReal(as_real(a) - as_real(b)) if real else VInt(as_int(a) - as_int(b))
         if isinstance(op, ast.Mult):
+            if real and not z3.is_rational_value(z3.simplify(as_real(a))) and not z3.is_rational_value(z3.simplify(as_real(b))):
+                return VReal(self.real_product(as_real(a), as_real(b), st))
             return VReal(as_real(a) * as_real(b)) if real else VInt(as_int(a) * as_int(b))
         if isinstance(op, ast.Div):
             self.oblige(st, 'div0', 'divisor-nonzero', as_real(b) != 0, node, raises='ZeroDivisionError')
@@ -514,6 +528,23 @@ class Evaluator:
                 return VReal(r) if real else VInt(r)
             raise Unsupported('power with non-literal exponent')
         raise Unsupported('binary operator %s' % type(op).__name__)
+
+    def real_product(self, x, y, st):
+        """Product of two symbolic reals, kept out of non-linear arithmetic: an uninterpreted rmul(x, y) with ground instances of
+        sound consequences of rmul(x,y) == x*y (sign rules, multiplication by 0 / 1, scaling by a fraction)."""
+        RM = z3.Function('rmul', z3.RealSort(), z3.RealSort(), z3.RealSort())
+        p = RM(x, y)
+        key = ('rmul', x.get_id(), y.get_id())
+        if not any(getattr(t, '_ax_key', None) == key for t in st.pc):
+            ax = z3.And(
+                z3.Implies(z3.And(x >= 0, y >= 0), p >= 0), z3.Implies(z3.And(x <= 0, y <= 0), p >= 0),
+                z3.Implies(z3.And(x >= 0, y <= 0), p <= 0), z3.Implies(z3.And(x <= 0, y >= 0), p <= 0),
+                z3.Implies(x == 0, p == 0), z3.Implies(y == 0, p == 0), z3.Implies(x == 1, p == y), z3.Implies(y == 1, p == x),
+                z3.Implies(z3.And(x >= 0, x <= 1, y >= 0), p <= y), z3.Implies(z3.And(y >= 0, y <= 1, x >= 0), p <= x),
+                z3.Implies(z3.And(x >= 1, y >= 0), p >= y), z3.Implies(z3.And(y >= 1, x >= 0), p >= x))
+            ax._ax_key = key
+            st.pc.append(ax)
+        return p
 
     def binop_hook(self, op, a, b, st, node):
         return None
@@ -639,6 +670,15 @@ class Evaluator:
         raise Unsupported('subscript of %r (line %s)' % (base, getattr(node, 'lineno', '?')))
 
     def subscript_hook(self, base, sl, st, node):
+        # P[:, c] on an array whose rows are fixed-width tuples of numbers (e.g. channel positions): column c as a 1-D array
+        if isinstance(base, VList) and isinstance(sl, VTuple) and len(sl.items) == 2 and isinstance(sl.items[0], VSlice) \
+                and all(isinstance(x, VNone) for x in (sl.items[0].start, sl.items[0].stop, sl.items[0].step)) and isinstance(sl.items[1], VInt):
+            cell = st.heap.lists[base.ref]
+            cidx = const_int(sl.items[1].t)
+            if isinstance(cell.etype, tuple) and cell.etype[0] == 'tuple' and cidx is not None and 0 <= cidx < len(cell.etype[1]) \
+                    and all(t in ('int', 'real') for t in cell.etype[1]):
+                r = st.heap.alloc_list(cell.etype[1][cidx], cell.length, [cell.leaves[cidx]])
+                return VList(r.ref, nd=True)
         # rows[:, cols] on a block of opaque rows: row-wise column selection (definition of op_row('cols', cols, row))
         if isinstance(base, VList) and isinstance(sl, VTuple) and len(sl.items) == 2 and isinstance(sl.items[0], VSlice) \
                 and all(isinstance(x, VNone) for x in (sl.items[0].start, sl.items[0].stop, sl.items[0].step)):
